@@ -413,6 +413,12 @@ impl PackageBuilder {
             )
         };
 
+        // the directory name always starts and ends with exactly one slash - the root directory is "/"
+        let dir = match dir.trim_matches('/') {
+            "" => "/".to_string(),
+            dir => format!("/{}/", dir),
+        };
+
         let mut hasher = sha2::Sha256::default();
         hasher.update(&content);
         let hash_result = hasher.finalize();
